@@ -303,8 +303,8 @@ package rtsp
 // the method-order check: a method that is not legal in the current state is answered 455 here, before any
 // authentication or handler runs, and nothing of the session changes; OPTIONS and TEARDOWN are always answered
 //@ func (s *Session) onPreprocess(resp *Response, req *Request) (continueProcess bool, err error)
-//@   requires sessOK(s) && resp != nil && req != nil && resp.Header != nil
-//@   modifies resp.StatusCode, resp.Status, misc(resp.Header), s.user, s.closed, misc(s), s.status, held(&s.lockW), out(s.conn), ghostInt(s.conn, "flushed"), ghostInt(s.conn, "flushes"), out(s.wsconn), ghostInt(s.wsconn, "wsmessages")
+//@   requires sessOK(s) && resp != nil && req != nil && req.URL != nil && resp.Header != nil
+//@   modifies resp.StatusCode, resp.Status, misc(resp.Header), s.user, s.nonce, s.closed, misc(s), s.status, held(&s.lockW), out(s.conn), ghostInt(s.conn, "flushed"), ghostInt(s.conn, "flushes"), out(s.wsconn), ghostInt(s.wsconn, "wsmessages")
 //@   assert[call:response] !legalRFC(s.status, req.Method) ==> resp.StatusCode == StatusMethodNotValidInThisState || resp.StatusCode == StatusUnauthorized
 //@   ensures !held(&s.lockW)
 //@   ensures continueProcess ==> sent(s) == old(sent(s)) && err == nil && s.status == old(s.status) && resp.StatusCode == old(resp.StatusCode) && sessOK(s)
